@@ -23,7 +23,7 @@ NOTES = ("All checks: ./check <ID> --tier quick|thorough. Budgets are case count
          "See DESIGN.md.")
 
 PROPS["C02"] = pbt(
-    "pbt_c02", "pbt_c02.cpp",
+    "pbt_c02", "pbt_c02.cpp", struct_fuzz=True,
     rule=("files printed from an AST of the conventional grammar (DESIGN 5.1) x 7 delimiter sets x 3 comment sets; "
           "non-trivial = at least one entry and two different adjacent line kinds; distinct = hash of the line-kind "
           "skeleton (kind, indentation, quoting, separator form, trailing comment per line) + delimiter/comment set, "
@@ -34,7 +34,7 @@ PROPS["C02"] = pbt(
                 "delimiter x comment configurations, class floors enforced. Shows presence of violations, not absence."),
     level_note="trusts the grammar printer and the model in src/common (not the parser); C locale; tmpfs scratch",
     quick={"cases": 480000},
-    thorough={"cases": 16000000},
+    thorough={"cases": 16000000, "fuzz_runs": 1500000, "fuzz_jobs": 8},
     floors={"delim_nonblank": 0.10, "delim_blank": 0.10, "delim_mixed": 0.10, "delim_none": 0.05,
             "quoted": 0.15, "trailing_comment": 0.15, "continuation": 0.08, "duplicate_key": 0.10,
             "reopened_section": 0.01, "keyless_section": 0.05, "empty_value": 0.10, "no_final_newline": 0.08,
@@ -42,7 +42,7 @@ PROPS["C02"] = pbt(
 )
 
 PROPS["C05"] = pbt(
-    "pbt_c05", "pbt_c05.cpp",
+    "pbt_c05", "pbt_c05.cpp", struct_fuzz=True,
     rule=("F = conventional single-line-value file (DESIGN 5.1 without continuation lines) over all delimiter and "
           "comment sets; 1-6 wild comment lines (blank* c text, text over the full printable alphabet incl. comment "
           "characters, delimiters, quotes, brackets) inserted at arbitrary positions, >=50% directly after an entry; "
@@ -56,13 +56,13 @@ PROPS["C05"] = pbt(
                 "printed from. 100k (quick) / 3M (thorough) file triples."),
     level_note="trusts the grammar printer/model in src/common; comments and line numbers are excluded from the comparison (they legitimately move)",
     quick={"cases": 400000},
-    thorough={"cases": 8000000},
+    thorough={"cases": 8000000, "fuzz_runs": 800000, "fuzz_jobs": 8},
     floors={"indented_insert": 0.30, "second_comment_char": 0.30, "insert_after_entry": 0.30,
             "delim_nonblank": 0.10, "delim_blank": 0.08, "delim_mixed": 0.08, "delim_none": 0.04, "opt_python": 0.05, "opt_join": 0.05},
 )
 
 PROPS["C03"] = pbt(
-    "pbt_c03", "pbt_c03.cpp",
+    "pbt_c03", "pbt_c03.cpp", struct_fuzz=True,
     rule=("(i) bounded-exhaustive: every ordered pair of entry lists of length <= L (L=3 quick: 259^2 pairs, L=4 "
           "thorough: 1555^2 pairs) over {group-less,A,B} x {x,y}, realised through the setters (no duplicate) or by "
           "printing+parsing (group-less entries leading); pairs needing both are counted as unrealisable; (ii) the four "
@@ -76,12 +76,12 @@ PROPS["C03"] = pbt(
                 "unchanged, result independent of freed inputs)."),
     level_note="trusts the specification M1-M7 as transcription of the property; objects are built only through the public API",
     quick={"cases": 160000, "modes": [["exh", "3", str(k), "16"] for k in range(16)] + [["empties"]]},
-    thorough={"cases": 3000000, "modes": [["exh", "4", str(k), "16"] for k in range(16)] + [["empties"]]},
+    thorough={"cases": 3000000, "fuzz_runs": 600000, "fuzz_jobs": 8, "modes": [["exh", "4", str(k), "16"] for k in range(16)] + [["empties"]]},
     floors={"base_reopens_section": 0.10, "override_only_groupless": 0.10, "base_nonleading_groupless": 0.08},
 )
 
 PROPS["C01"] = pbt(
-    "pbt_c01", "pbt_c01.cpp",
+    "pbt_c01", "pbt_c01.cpp", struct_fuzz=True,
     rule=("trees of DESIGN 5.3 (3 default layers under ROOT_PREFIX or 1-4 explicit PARSING_DIRS layers; main file "
           "absent/regular/empty/link to /dev/null/link to a regular file per layer; drop-in directories for the "
           "effective and for distractor postfixes; names with byte-order-sensitive prefixes, without suffix, suffix "
@@ -96,7 +96,7 @@ PROPS["C01"] = pbt(
                 "construction. 32k (quick) / 640k (thorough) trees with class floors on every shape the quantifier names."),
     level_note="trusts the lookup model and reference merge in src/common/gen_tree.hpp; real /run and /etc only for the nothing-exists case",
     quick={"cases": 240000},
-    thorough={"cases": 5000000},
+    thorough={"cases": 5000000, "fuzz_runs": 400000, "fuzz_jobs": 8},
     floors={"masked_dropin": 0.10, "no_main": 0.15, "no_main_first_masked": 0.01, "empty_or_devnull_main": 0.08,
             "empty_main_sectioned_first_dropin": 0.01, "main_in_2_layers": 0.15, "byteorder_sensitive_names": 0.10,
             "suffix_without_dot": 0.25, "suffix_absent": 0.05, "dropins_only": 0.08, "parsing_dirs": 0.15,
@@ -104,7 +104,7 @@ PROPS["C01"] = pbt(
 )
 
 PROPS["C13"] = pbt(
-    "pbt_c13", "pbt_c13.cpp", level="fault_enumeration",
+    "pbt_c13", "pbt_c13.cpp", struct_fuzz=True, level="fault_enumeration",
     rule=("conventional file (DESIGN 5.1, all delimiter/comment sets) + one injected malformed line of a kind in "
           "{'[name', '[name] text', '[]', 'key text' (non-blank delimiter sets only, not directly after an entry)} at a "
           "generated position, later lines arbitrary and possibly malformed too; standalone (econf_readFile / "
@@ -118,13 +118,13 @@ PROPS["C13"] = pbt(
                 "code, file and line follow from the injection. 40k (quick) / 1M (thorough) cases; message table exhaustive."),
     level_note="trusts the injector (position rules of DESIGN 5.1) and the lookup model for the tree part",
     quick={"cases": 300000},
-    thorough={"cases": 6000000},
+    thorough={"cases": 6000000, "fuzz_runs": 800000, "fuzz_jobs": 8},
     floors={"kind_missing_bracket": 0.12, "kind_text_after_section": 0.12, "kind_empty_section_name": 0.12,
             "kind_missing_delimiter": 0.03, "kind_missing_delimiter_later": 0.03, "directly_after_entry": 0.07, "not_first_line": 0.30, "tree_member": 0.20, "in_dropin": 0.10},
 )
 
 PROPS["C06"] = pbt(
-    "pbt_c06", "pbt_c06.cpp", level="fault_enumeration",
+    "pbt_c06", "pbt_c06.cpp", struct_fuzz=True, level="fault_enumeration",
     rule=("trees of C01 (<=6 consulted files) x the four callback entry points (readFileWithCallback on a single "
           "consulted file, readDirsWithCallback / readDirsHistoryWithCallback on two-directory trees, "
           "readConfigWithCallback on all) x {no rejection, EVERY singleton rejection set, two random larger sets} x "
@@ -139,13 +139,13 @@ PROPS["C06"] = pbt(
                 "must yield the callback-failed code and no configuration/history."),
     level_note="trusts the lookup model; a key-less object left by the two-directory entry points after a failure is accepted (see DESIGN C06)",
     quick={"cases": 60000},
-    thorough={"cases": 1200000},
+    thorough={"cases": 1200000, "fuzz_runs": 200000, "fuzz_jobs": 8},
     floors={"with_rejection": 0.50, "rejected_not_first": 0.25, "rejected_masked": 0.03,
             "ep_readDirsWithCallback": 0.12, "ep_readDirsHistoryWithCallback": 0.12, "ep_readFileWithCallback": 0.08},
 )
 
 PROPS["C12"] = pbt(
-    "pbt_c12", "pbt_c12.cpp",
+    "pbt_c12", "pbt_c12.cpp", struct_fuzz=True,
     rule=("two-layer trees (econf_readDirs, ...WithCallback, econf_readConfig and ...WithCallback configured with "
           "PARSING_DIRS=<d1>:<d2>, econf_readDirsHistory and ...WithCallback) and three-layer trees (default scheme "
           "under ROOT_PREFIX vs. explicit PARSING_DIRS, with and without callback) x suffix spellings x NULL/empty "
@@ -160,12 +160,12 @@ PROPS["C12"] = pbt(
                 "trees, 4-8 reads each."),
     level_note="trusts the lookup model for the expected member list; entry points are compared with each other, not with a model",
     quick={"cases": 60000},
-    thorough={"cases": 1200000},
+    thorough={"cases": 1200000, "fuzz_runs": 150000, "fuzz_jobs": 8},
     floors={"masked_member": 0.06, "null_or_empty_dir_arg": 0.05, "global_postfix_list": 0.08, "three_layers": 0.25},
 )
 
 PROPS["C16"] = pbt(
-    "pbt_c16", "pbt_c16.cpp",
+    "pbt_c16", "pbt_c16.cpp", struct_fuzz=True,
     rule=("trees of C01 (<=5 consulted files) x per consulted file (owner matching/foreign, group matching/foreign, "
           "regular/symlink; links and their targets get the same ownership) x active subset of {required owner in "
           "{0,4242}, required group in {0,4343}, no-symlink} x entry point in {readConfig, readConfigWithCallback, "
@@ -180,13 +180,13 @@ PROPS["C16"] = pbt(
                 "foreign-owner half (evidence says so if not)."),
     level_note="trusts the lookup model for the consultation order; runs as root in this sandbox (chown/lchown)",
     quick={"cases": 100000},
-    thorough={"cases": 2000000},
+    thorough={"cases": 2000000, "fuzz_runs": 200000, "fuzz_jobs": 8},
     floors={"has_offender": 0.30, "offender_is_dropin": 0.15, "offender_is_masked": 0.004, "symlink_rule": 0.30,
             "offender_not_first": 0.08},
 )
 
 PROPS["C17"] = pbt(
-    "pbt_c17", "pbt_c17.cpp",
+    "pbt_c17", "pbt_c17.cpp", struct_fuzz=True,
     rule=("conventional files (DESIGN 5.1; non-blank and blank-only delimiter sets, all comment sets) with comment "
           "blocks before keys (attached and detached), trailing comments, multi-line values, sections; read by "
           "absolute name and by names relative to the working directory (f, ./f, sub/../f). Oracle from the AST: "
@@ -202,13 +202,13 @@ PROPS["C17"] = pbt(
                 "expected value. 100k (quick) / 3M (thorough) files."),
     level_note="trusts the grammar printer; detached comment blocks may or may not be carried along (property leaves it open)",
     quick={"cases": 500000},
-    thorough={"cases": 10000000},
+    thorough={"cases": 10000000, "fuzz_runs": 800000, "fuzz_jobs": 8},
     floors={"relative_name": 0.20, "detached_comment_block": 0.08, "trailing_comment_on_continuation": 0.03,
             "comment_block_2plus": 0.08, "continuation": 0.10},
 )
 
 PROPS["C15"] = pbt(
-    "pbt_c15", "pbt_c15.cpp",
+    "pbt_c15", "pbt_c15.cpp", struct_fuzz=True,
     rule=("three sub-checks: JOIN grammar files (small key universe, 1-5 definitions per key, single/multi-line, 1/4 "
           "empty definitions, re-opened sections) read with and without JOIN_SAME_ENTRIES (also spelled =0); PYTHON "
           "grammar files (indented lines with delimiters/comment characters, comment characters after values) read "
@@ -223,14 +223,14 @@ PROPS["C15"] = pbt(
                 "80k (quick) / 2.5M (thorough) cases."),
     level_note="empty items (a;;b) and values other than 0/1 are undocumented either way and not generated",
     quick={"cases": 400000},
-    thorough={"cases": 8000000},
+    thorough={"cases": 8000000, "fuzz_runs": 800000, "fuzz_jobs": 8},
     floors={"key_with_3plus_definitions|sub_join": 0.20, "reset_in_the_middle|sub_join": 0.10,
             "indented_line_with_delimiter|sub_python": 0.20, "repeated_item|sub_options": 0.20,
             "unknown_item|sub_options": 0.20},
 )
 
 PROPS["C07"] = pbt(
-    "pbt_c07", "pbt_c07.cpp",
+    "pbt_c07", "pbt_c07.cpp", struct_fuzz=True,
     rule=("(a) setter histories (<=40 typed/string sets over sections {NULL,'',A,[A],B,[B],'Sec C','[Sec C]'} and 8 "
           "keys incl. a long and a UTF-8 key, values of DESIGN 5.4 incl. empty and multi-line) on econf_newKeyFile / "
           "econf_newIniFile / econf_newKeyFile_with_options; (b) parsed conventional files restricted to DESIGN 5.4 "
@@ -244,14 +244,14 @@ PROPS["C07"] = pbt(
                 "3M (thorough) objects, all six tag combinations, both ways of building an object."),
     level_note="domain restricted to values with an unambiguous textual form (DESIGN 5.4); section order and key-less sections are not compared",
     quick={"cases": 400000},
-    thorough={"cases": 8000000},
+    thorough={"cases": 8000000, "fuzz_runs": 800000, "fuzz_jobs": 8},
     floors={"reopened_section_by_setters": 0.10, "groupless_after_section": 0.10, "overwritten_key": 0.15,
             "read_quoted": 0.08, "comments": 0.15, "d_space": 0.25, "d_eq": 0.25, "d_colon": 0.25, "c_hash": 0.40,
             "c_semicolon": 0.40},
 )
 
 PROPS["C11"] = pbt(
-    "pbt_c11", "pbt_c11.cpp",
+    "pbt_c11", "pbt_c11.cpp", struct_fuzz=True,
     rule=("model-based (stateful) runs of up to 60 commands from five start states (econf_newKeyFile, econf_newIniFile, "
           "econf_newKeyFile_with_options, a parsed conventional file, a merge result); commands: string/int/uint/bool "
           "setters, string/int getters, string/int defaulted getters, section and key listings, refused calls (no "
@@ -264,13 +264,13 @@ PROPS["C11"] = pbt(
                 "model is the ordered map of DESIGN 6.1."),
     level_note="int getter results are only compared for plain decimal literals (conversions are C09's subject)",
     quick={"cases": 300000},
-    thorough={"cases": 6000000},
+    thorough={"cases": 6000000, "fuzz_runs": 800000, "fuzz_jobs": 8},
     floors={"grew_past_8_entries": 0.15, "overwrote_key": 0.20, "both_section_spellings": 0.20,
             "start_parsed file": 0.15, "start_merge result": 0.08},
 )
 
 PROPS["C10"] = pbt(
-    "pbt_c10", "pbt_c10.cpp",
+    "pbt_c10", "pbt_c10.cpp", struct_fuzz=True,
     rule=("an object (parsed conventional file with bare keys plus lines carrying tempting values - mixed-case boolean "
           "words, numbers in three bases, junk; or built by setters; or a merge result) and 1-40 read-only calls: all 8 "
           "typed getters, all 8 defaulted getters, the extended getter, both listings, path and tag queries, "
@@ -283,7 +283,7 @@ PROPS["C10"] = pbt(
     level_text="generated search over objects and query sequences with a state-invariance oracle; 60k (quick) / 2M (thorough) objects, ~20 queries each.",
     level_note="the dump is taken through the public API and the writer only",
     quick={"cases": 300000},
-    thorough={"cases": 6000000},
+    thorough={"cases": 6000000, "fuzz_runs": 500000, "fuzz_jobs": 8},
     floors={"failing_getter": 0.20, "bool_getter_on_mixed_case": 0.15, "used_in_merge": 0.20, "key_without_value": 0.10},
 )
 
